@@ -1350,8 +1350,11 @@ out:
 	}
 	if (!c)
 	{
-		/* We hit an eof char (0) */
-		if (state != json_tokener_state_finish && saved_state != json_tokener_state_finish)
+		/* We hit an eof char (0): only a finished top-level value may end here,
+		 * not a finished value inside a container that is still open.
+		 */
+		if (tok->depth > 0 ||
+		    (state != json_tokener_state_finish && saved_state != json_tokener_state_finish))
 			tok->err = json_tokener_error_parse_eof;
 	}
 
